@@ -759,6 +759,22 @@ where
     }
 }
 
+struct ShortWriter {
+    got: Vec<u8>,
+    step: usize,
+}
+
+impl std::io::Write for ShortWriter {
+    fn write(&mut self, b: &[u8]) -> std::io::Result<usize> {
+        let n = b.len().min(self.step);
+        self.got.extend_from_slice(&b[..n]);
+        Ok(n)
+    }
+    fn flush(&mut self) -> std::io::Result<()> {
+        Ok(())
+    }
+}
+
 fn enc_line<T>(v: &T, rt: fn(&[u8]) -> String) -> String
 where
     T: Txt + Packable,
@@ -770,7 +786,21 @@ where
     v.pack(&mut buf2);
     let mut streamed: Vec<u8> = Vec::new();
     let n = v.stream(&mut streamed).expect("stream to a Vec");
-    let same = if buf2 != bytes { " PACK-DIFFERS" } else if streamed != bytes || n != sz { " STREAM-DIFFERS" } else { "" };
+    // a writer that takes at most 3 bytes per call (a pipe, a socket, a capped sink): stream() must still
+    // deliver every byte and report their number
+    let mut short = ShortWriter { got: Vec::new(), step: 3 };
+    let n2 = v.stream(&mut short).expect("stream to a short writer");
+    let mut short3 = ShortWriter { got: Vec::new(), step: 1 };
+    let n3 = stack_pack(v).stream(&mut short3).expect("stream of a stack packer to a short writer");
+    let same = if buf2 != bytes {
+        " PACK-DIFFERS"
+    } else if streamed != bytes || n != sz {
+        " STREAM-DIFFERS"
+    } else if short.got != bytes || n2 != sz || short3.got != bytes || n3 != sz {
+        " STREAM-SHORT-WRITE-DIFFERS"
+    } else {
+        ""
+    };
     format!("{} sz={}{} rt={}", hex(&bytes), sz, same, rt(&bytes))
 }
 
